@@ -161,3 +161,102 @@ package roregexp
 //@   ensures [passes-the-item-and-the-operator-parameters|C18] arg(call.Regexp.ReplaceAllString, 0) == pattern && arg(call.Regexp.ReplaceAllString, 1) == v && arg(call.Regexp.ReplaceAllString, 2) == repl
 //@   ensures [returns-its-result|C18] result == res(call.Regexp.ReplaceAllString)
 
+// The operators themselves: each is one ro.Map / ro.MapErr / ro.Filter around its lambda.
+
+//@ func FilterMatchString
+//@   note the operator is the lift of its own lambda (FilterMatchString$1 above) by ro.Filter and of nothing else
+//@   props C18
+//@   maypanic
+//@   track call.*
+//@   ensures [is-the-lift-of-its-own-lambda|C18] count(call.ANY) == 1 && called(call.Filter)
+
+//@ func FindAllString
+//@   note the operator is the lift of its own lambda (FindAllString$1 above) by ro.Map and of nothing else
+//@   props C18
+//@   maypanic
+//@   track call.*
+//@   ensures [is-the-lift-of-its-own-lambda|C18] count(call.ANY) == 1 && called(call.Map)
+
+//@ func FindAllStringSubmatch
+//@   note the operator is the lift of its own lambda (FindAllStringSubmatch$1 above) by ro.Map and of nothing else
+//@   props C18
+//@   maypanic
+//@   track call.*
+//@   ensures [is-the-lift-of-its-own-lambda|C18] count(call.ANY) == 1 && called(call.Map)
+
+//@ func FindString
+//@   note the operator is the lift of its own lambda (FindString$1 above) by ro.Map and of nothing else
+//@   props C18
+//@   maypanic
+//@   track call.*
+//@   ensures [is-the-lift-of-its-own-lambda|C18] count(call.ANY) == 1 && called(call.Map)
+
+//@ func FindStringSubmatch
+//@   note the operator is the lift of its own lambda (FindStringSubmatch$1 above) by ro.Map and of nothing else
+//@   props C18
+//@   maypanic
+//@   track call.*
+//@   ensures [is-the-lift-of-its-own-lambda|C18] count(call.ANY) == 1 && called(call.Map)
+
+//@ func MatchString
+//@   note the operator is the lift of its own lambda (MatchString$1 above) by ro.Map and of nothing else
+//@   props C18
+//@   maypanic
+//@   track call.*
+//@   ensures [is-the-lift-of-its-own-lambda|C18] count(call.ANY) == 1 && called(call.Map)
+
+//@ func ReplaceAllString
+//@   note the operator is the lift of its own lambda (ReplaceAllString$1 above) by ro.Map and of nothing else
+//@   props C18
+//@   maypanic
+//@   track call.*
+//@   ensures [is-the-lift-of-its-own-lambda|C18] count(call.ANY) == 1 && called(call.Map)
+
+//@ func FilterMatch
+//@   note the operator is the lift of its own lambda (FilterMatch$1 above) by ro.Filter and of nothing else
+//@   props C18
+//@   maypanic
+//@   track call.*
+//@   ensures [is-the-lift-of-its-own-lambda|C18] count(call.ANY) == 1 && called(call.Filter)
+
+//@ func Find
+//@   note the operator is the lift of its own lambda (Find$1 above) by ro.Map and of nothing else
+//@   props C18
+//@   maypanic
+//@   track call.*
+//@   ensures [is-the-lift-of-its-own-lambda|C18] count(call.ANY) == 1 && called(call.Map)
+
+//@ func FindAll
+//@   note the operator is the lift of its own lambda (FindAll$1 above) by ro.Map and of nothing else
+//@   props C18
+//@   maypanic
+//@   track call.*
+//@   ensures [is-the-lift-of-its-own-lambda|C18] count(call.ANY) == 1 && called(call.Map)
+
+//@ func FindAllSubmatch
+//@   note the operator is the lift of its own lambda (FindAllSubmatch$1 above) by ro.Map and of nothing else
+//@   props C18
+//@   maypanic
+//@   track call.*
+//@   ensures [is-the-lift-of-its-own-lambda|C18] count(call.ANY) == 1 && called(call.Map)
+
+//@ func FindSubmatch
+//@   note the operator is the lift of its own lambda (FindSubmatch$1 above) by ro.Map and of nothing else
+//@   props C18
+//@   maypanic
+//@   track call.*
+//@   ensures [is-the-lift-of-its-own-lambda|C18] count(call.ANY) == 1 && called(call.Map)
+
+//@ func Match
+//@   note the operator is the lift of its own lambda (Match$1 above) by ro.Map and of nothing else
+//@   props C18
+//@   maypanic
+//@   track call.*
+//@   ensures [is-the-lift-of-its-own-lambda|C18] count(call.ANY) == 1 && called(call.Map)
+
+//@ func ReplaceAll
+//@   note the operator is the lift of its own lambda (ReplaceAll$1 above) by ro.Map and of nothing else
+//@   props C18
+//@   maypanic
+//@   track call.*
+//@   ensures [is-the-lift-of-its-own-lambda|C18] count(call.ANY) == 1 && called(call.Map)
